@@ -63,6 +63,11 @@ def grid_get(E, a, idx, node):
             t = z3.If(t < 0, n + t, t) if not isinstance(idx, int) or idx < 0 else t
         t = z3.simplify(t)
         if a.lead == 1:
+            al = getattr(a, 'alias_of', None)
+            if al is not None:
+                # a slice of a list holds the SAME element objects: the element belongs to the list the slice was taken from
+                base, lo = al
+                return Elem(E.st.heap[base.ident](t + lo).t, base, z3.simplify(t + lo), _tlen(a))
             v = clo(t)
             return Elem(v.t, a, t, _tlen(a))
         sub = grid(E, a.shape[1:], a.lead - 1, (lambda *rest, clo=clo, t=t: clo(t, *rest)), a.kind, owner=owner_of(a),
@@ -79,6 +84,21 @@ def grid_get(E, a, idx, node):
             E.oblige('lib-pre', z3.And(j >= 0, j < n1), node, 'index in range')
         return grid(E, (a.shape[0],) + tuple(a.shape[2:]), 1, (lambda i, clo=clo, j=j: clo(i, j)), a.kind, owner=owner_of(a),
                     fresh=a.ident in E.st.fresh)
+    if isinstance(idx, slice) and a.lead == 1 and idx.step in (None, 1) and getattr(a, 'alias_of', None) is None:
+        # lst[lo:hi] of a python list (or 1-D object array): a new container of the same element objects
+        lo = 0 if idx.start is None else term_int(idx.start)
+        hi = n if idx.stop is None else term_int(idx.stop)
+        lo = z3.If(lo < 0, z3.If(n + lo < 0, 0, n + lo), z3.If(lo > n, n, lo)) if not isinstance(lo, int) else (lo if lo >= 0 else None)
+        if lo is None or not (idx.stop is None):
+            raise Unsupported('grid slice %r' % (idx,))
+        lo_t = lo if not isinstance(lo, int) else z3.IntVal(lo)
+        m = z3.simplify(z3.If(n - lo_t > 0, n - lo_t, 0))
+        g = grid(E, (m,) + tuple(a.shape[1:]), 1, (lambda i, a=a, lo_t=lo_t: E.st.heap[a.ident](i + lo_t)), 'list', owner=owner_of(a),
+                 fresh=a.ident in E.st.fresh)
+        g.alias_of = (a, lo_t)
+        if getattr(a, 'elem_kind', None):
+            g.elem_kind = a.elem_kind
+        return g
     raise Unsupported('grid index %r' % (idx,))
 
 
@@ -90,6 +110,10 @@ def grid_iter(E, a):
         tl = _tlen(a)
         # element k is read when iteration k starts (python list iteration): from the CURRENT contents, so that a loop
         # that changes the list it walks over sees its own earlier writes (through the loop invariant)
+        al = getattr(a, 'alias_of', None)
+        if al is not None:
+            base, lo = al
+            return Iter(count=n, elem=lambda k: Elem(E.st.heap[base.ident](k + lo).t, base, z3.simplify(k + lo), tl), deps=(base.ident,))
         return Iter(count=n, elem=lambda k: Elem(E.st.heap[a.ident](k).t, a, k, tl), deps=(a.ident,))
     def row(k):
         g = grid(E, a.shape[1:], a.lead - 1, (lambda *rest: E.st.heap[a.ident](k, *rest)), a.kind, owner=owner_of(a),
